@@ -27,20 +27,20 @@ TEXT = {
             "uuid::Uuid::is_nil/is_max run on the real dependency code under Kani."),
 }
 TEXT.update({
-    "C08": ("get_sub_iovs_offset is proved for every iovec list and offset (Verus, loop invariant); header/body/payload receivers classify every short read (Kani, complete: clean disconnect only at a boundary, PartialMessage inside, never a value from a short read); recv_data is proved independent of segmentation (bounded length); send_message* hand exactly hdr|body|payload and the caller's descriptors to the primitive once.",
-            "send_iovec_all / recv_into_iovec_all against an arbitrary chunking socket are bounded stand-ins (2 iovecs, 4 bytes, any chunking; thorough tier) plus 2-byte byte-wise variants in the quick tier; 'without blocking forever' is liveness and not decided."),
+    "C08": ("get_sub_iovs_offset, Endpoint::send_iovec_all and Endpoint::recv_into_iovec_all are verified in Verus for EVERY iovec list, every length and every chunking the socket primitive may choose (loop invariants, no bound): the wire carries exactly a prefix of hdr|body|payload, each byte once and in order, the descriptors go with the first byte only; the k-th stream byte is stored at the k-th address of the caller's buffers and the descriptors returned are those of the first chunk. Header/body/payload receivers classify every short read (Kani, complete: clean disconnect only at a boundary, PartialMessage inside, never a value from a short read); recv_data is independent of segmentation (Kani, bounded length); send_message* hand exactly hdr|body|payload and the caller's descriptors to send_iovec_all once (Kani).",
+            "One sendmsg/recvmsg (send_iovec / recv_into_iovec) is the assumed boundary (A-OS); the iterator/concat expressions of the two loops are replaced by environment functions (R19) whose meaning is cross-checked on the un-rewritten code by the bounded Kani chunking harnesses (thorough tier); 'without blocking forever' is liveness and is not decided (the loops have no decreases clause: a socket that reports retry forever never returns)."),
     "C11": ("Registration invariant (kick descriptor registered with the ring's rank on the owning worker iff started and enabled, nothing else registered) and the transition table are proved for each control message from an ARBITRARY ring state on the real VhostUserHandler / VringState / Queue code (Kani); the worker's dispatch rule (backend entered iff read_kick reports enabled) likewise.",
             "epoll level-triggering and 'closing a descriptor removes its registration' are assumed (A-EPOLL); one ring / one worker per harness; thread interleavings are C12 (not applicable)."),
-    "C13": ("vmm_va_to_gpa: first containing region, gpa_base + (va - user_base), rejected iff none contains it, no overflow under the table invariant (Verus, all tables); ADD_MEM_REG / REM_MEM_REG: resulting memory view, mapping table and exactly one backend notification (Verus against the documented vm-memory contracts).",
-            "SET_MEM_TABLE's handler body (zip adapter) is outside the Verus dialect and mmap is outside Kani: its region validation is proved at the protocol layer (C05), the body is not; two known findings (failed update after the memory was replaced)."),
-    "C14": ("Real handler + real virtio-queue Queue (Kani): SET_VRING_NUM range and effect, SET_VRING_BASE / GET_VRING_BASE next-avail round trip, SET_FEATURES subset rule and EVENT_IDX / acked bits reaching every queue and the backend, out-of-range index rejected by every per-ring message; SET_VRING_ADDR argument routing and translation (Verus); 161 adapter methods are pure delegations (scan).",
-            "set_backend_req_fd flag inheritance and signal_used_queue are read, not proved; Queue::set_size silently ignores non powers of two (outside the property's accepted sizes)."),
-    "C15": ("AtomicBitmapMmap::new accepts exactly when the log covers the region's last page; mark_dirty performs exactly the writes (byte page/8, bit page%8 of the absolute page) for every offset/length with every index inside the mapping (Verus, unbounded); bit-exact effect on a real in-memory log for all layouts of a 32-page log (Kani, bounded); slices compose offsets; replace installs the new log.",
-            "Atomicity rests on fetch_or being the only write to the log (scan) + A-ATOMIC; one known finding (regions added after SET_LOG_BASE are not logged)."),
+    "C13": ("vmm_va_to_gpa: first containing region, gpa_base + (va - user_base), rejected iff none contains it, no overflow under the table invariant (Verus, all tables); SET_MEM_TABLE / ADD_MEM_REG / REM_MEM_REG and the shared replace_memory helper: resulting memory view (region j = message region j backed by descriptor j at its mmap_offset), mapping table, exactly one backend notification per successful change, and on every failure path memory view and table unchanged (Verus against the documented vm-memory contracts, all region counts).",
+            "vm-memory (mmap, GuestMemoryMmap::from_regions / insert_region / remove_region, GuestMemoryAtomic) is modelled by its documented effect on a ghost region list (A-VMM): 'each byte backed by the file' is that model, not a proof about mmap. The defect found here (memory replaced before a refusable update_memory) is repaired by fix 8bb36c0."),
+    "C14": ("Real handler + real virtio-queue Queue (Kani): SET_VRING_NUM range and effect, SET_VRING_BASE / GET_VRING_BASE next-avail round trip, SET_FEATURES subset rule and EVENT_IDX / acked bits reaching every queue and the backend, out-of-range index rejected by every per-ring message, signal_used_queue uses the latest call descriptor; SET_VRING_ADDR argument routing and translation and set_backend_req_fd flag inheritance (Verus); 161 adapter methods are pure delegations (scan).",
+            "Queue::set_size silently ignores non powers of two (outside the property's accepted sizes); the SET_VRING_ADDR call order is a scan obligation."),
+    "C15": ("AtomicBitmapMmap::new accepts exactly when the log covers the region's last page; mark_dirty performs exactly the writes (byte page/8, bit page%8 of the absolute page) for every offset/length with every index inside the mapping (Verus, unbounded); bit-exact effect on a real in-memory log for all layouts of a 32-page log (Kani, bounded); slices compose offsets; replace installs the new log; logging stays in force across memory-table changes (Verus clause on set_mem_table / add_mem_region: FAILS - known findings).",
+            "Atomicity rests on fetch_or being the only write to the log (scan) + A-ATOMIC; two known findings (regions added / tables installed after SET_LOG_BASE are not logged)."),
     "C16": ("Sequential fragment only: wait()'s join-result classification uses the shutdown flag as read AFTER the join, connection state reset on every path; serve() raises the exit events exactly once and maps clean/partial disconnects to success (Verus); shutdown stores the flag before shutting the socket down, Drop and the daemon thread shut both directions (scan).",
             "Every timing clause of the property (position of the shutdown request relative to the daemon thread, bounded time, peer observing EOF) is schedules x crash points and is NOT decided."),
-    "C17": ("Owning worker = first mask containing the queue, event id = rank among the mask's lower queues, that worker's ring slice holds the queue at that rank (Kani on the real update_vring_registration; bounded: 3 queues, 2 workers, all masks < 8); custom listener ids: reserved range refused, every accepted id is delivered unchanged by the 16-bit dispatch, never equal to a ring rank or the exit id (Kani, all u64 ids).",
-            "VhostUserHandler::new (thread spawn) is outside Kani: the slice construction is re-stated in the harness set-up; popcount on full 64-bit masks is SAT-hard (bounded)."),
+    "C17": ("For EVERY queues-per-thread configuration (any number of workers, any 64-bit masks, up to 64 queues; Verus, unbounded): VhostUserHandler::new gives worker t the thread id t and the rings of mask t in increasing queue order; update_vring_registration talks only to the FIRST worker whose mask contains the queue, with event id popcount(mask) - popcount(mask >> q) = number of the mask's queues below q; lemma: slice[event id] is queue q, and the owner is unique. Real-code Kani: the worker's dispatch (backend entered with the registered id, the thread id and its slice), custom listener ids (reserved range refused, accepted ids delivered unchanged by the 16-bit dispatch, never a ring rank or the exit id; all u64 ids), registration on the real handler (bounded: 3 queues, masks < 8).",
+            "Assumed: u64::count_ones is the population count (A-POPCNT), Arc / thread spawn / epoll_ctl are opaque (R23, argument contracts); more than 64 queues overflow `mask >> index` (A-NQ64, precondition)."),
     "C18": ("Proxy: gate, exactly one frame with NEED_REPLY iff reply-ack, with reply-ack exactly one acknowledgement consumed and success iff it matches with value 0; server: prologue + every arm: handler invoked exactly once with the decoded body and the lent descriptor, acknowledgement iff reply-ack and NEED_REPLY with value n / -errno / -EINVAL (Verus, all handler outcomes).",
             "k-th ack answers k-th request follows from one-frame-out / one-frame-in per call under the lock (A-LOCK); errno == i32::MIN excluded (A-ERRNO)."),
     "C19": ("Every operation of the blanket VhostBackend impl, VhostKernFeatures, vDPA, net and vsock: exactly one ioctl with the UAPI request number (table generated from <linux/vhost.h>), argument bytes at the UAPI offsets equal to the caller's values, result equal to what the kernel wrote back; invalid ring configurations refused with zero ioctls; vDPA passes guest addresses unchanged; IOTLB v1/v2 parse round trip; binding layouts == UAPI layouts (Kani, complete); ioctl_result/io_result (Verus).",
